@@ -1,5 +1,6 @@
 import Gomjml.Core.Tag
 import Gomjml.Core.InlineTagProofs
+import Gomjml.Core.InlineScan
 import Gomjml.Gen.ClassSites
 /-! # C19 — inline CSS is applied completely and touches nothing but style attributes (property theorems only)
 
@@ -85,5 +86,29 @@ example :
     let tag : List Gomjml.Amp.B := [60, 112, 32, 115, 116, 121, 108, 101, 61, 39, 97, 58, 98, 39, 32, 99, 108, 97, 115, 115, 61, 34, 107, 97, 34, 32, 105, 100, 61, 120, 47, 62]
     let inl : List Gomjml.Amp.B → List Gomjml.Amp.B := fun c => if c == [107, 97] then [99, 111, 108, 111, 114, 58, 114, 101, 100, 59] else []
     (parse tag).map Parsed.clean = some true ∧ inlineTag inl tag = [60, 112, 32, 115, 116, 121, 108, 101, 61, 39, 97, 58, 98, 59, 99, 111, 108, 111, 114, 58, 114, 101, 100, 59, 39, 32, 99, 108, 97, 115, 115, 61, 34, 107, 97, 34, 32, 105, 100, 61, 120, 47, 62] := by decide
+
+/-! ### author HTML: the scanner over a whole fragment -/
+open Gomjml.InlineScan in
+/-- **the scanner loses nothing**: text, comments, end tags and other markup, start tags — the segments it cuts a fragment into are
+    the fragment, byte for byte (for every byte string: unterminated comments and tags, stray `<` and quotes included) -/
+theorem C19_scan_lossless (s : List Gomjml.Amp.B) : (segments (s.length + 1) s).flatMap Seg.bytes = s := segments_bytes _ s
+
+open Gomjml.InlineScan in
+/-- **everything but start tags is copied; each start tag goes through the per-tag step** (for which `C19_tag_append` /
+    `C19_tag_merge` say that only the style attribute changes) -/
+theorem C19_scan_structure (inl : List Gomjml.Amp.B → List Gomjml.Amp.B) (s : List Gomjml.Amp.B) :
+    scan inl s = (segments (s.length + 1) s).flatMap (fun seg => match seg with
+      | .start t => Gomjml.InlineTag.inlineTag inl t
+      | .text b => b
+      | .other b => b) := by
+  unfold scan
+  congr 1
+  funext seg
+  cases seg <;> rfl
+
+open Gomjml.InlineScan in
+/-- **no targeted class, no change**: when no class value gets declarations the fragment comes out byte for byte -/
+theorem C19_scan_untargeted_identity (inl : List Gomjml.Amp.B → List Gomjml.Amp.B) (h : ∀ c, inl c = []) (s : List Gomjml.Amp.B) :
+    scan inl s = s := scan_id inl h s
 
 end Gomjml.Props.C19
